@@ -6,6 +6,7 @@
 -/
 import DfolsVerif.Proofs.SkeletonL
 import DfolsVerif.Gen.SolveMainSkel
+import DfolsVerif.Proofs.MainLoopPaths
 
 namespace Dfols
 namespace SolveMainPaths
@@ -64,6 +65,35 @@ theorem whole_run {tr : List String} {e : Ending} (hx : Exec Gen.solveMainBody t
   · exact Or.inr (Or.inl h)
   · refine Or.inr (Or.inr ⟨h.1, ?_⟩)
     rcases h.2 with (h2 | h2) | h2 <;> omega
+
+/-! ### every `return` of solve_main carries an exit object -/
+
+structure QE where
+  known : Bool
+  lastBrk : Bool
+  infeasible : Bool
+deriving DecidableEq, Repr
+
+/-- `known`: `exit_info` is an ExitInformation object — created since, or tested `is not None` since, its last assignment from a call -/
+def mE : Mon QE := ⟨fun q a =>
+  if a == "brk:while-True" then { q with lastBrk := true }
+  else if a == "after:while-True" then { q with infeasible := q.infeasible || !q.lastBrk, lastBrk := false }
+  else if a == "T:exit_info is not None" then { q with known := true }
+  else if a == "F:exit_info is not None" then { q with known := false }
+  else if MainLoopPaths.mayClear.contains a then { q with known := false }
+  else if MainLoopPaths.exitActs.contains a then { q with known := true }
+  else q⟩
+
+theorem exit_at_return_all : allReach mE Gen.solveMainBody ⟨false, false, false⟩
+    (fun q e => q.infeasible || e != .ret || q.known) = true := by decide +kernel
+
+/-- on every execution of solve_main that Python can take and that ends by `return`, `exit_info` is an ExitInformation object (the
+    flag and the message `solve` reads from it exist) — prelude returns included, any number of main-loop iterations -/
+theorem exit_at_return {tr : List String} {e : Ending} (hx : Exec Gen.solveMainBody tr e) (he : e = .ret) :
+    (mE.run ⟨false, false, false⟩ tr).infeasible = true ∨ (mE.run ⟨false, false, false⟩ tr).known = true := by
+  have h := all_paths mE Gen.solveMainBody ⟨false, false, false⟩ _ exit_at_return_all hx
+  subst he
+  simpa using h
 
 end SolveMainPaths
 end Dfols
